@@ -26,11 +26,16 @@ unrealised / totalPnl / avgPrice / net` of `QsModel/Position.lean`.
   accumulators; the code's `realised` has a branch for `net = 0`).  No restriction to non-flat
   intermediate states was needed.  (In the real system the handler deletes a flat position; the
   theorem is about the `Position` object itself.)
-* The proofs use only `qty ≠ 0` of the domain (`C03_reconcile_strong`): the identity also holds for the
-  `.1` component after a call that returned an error (time going backwards, non-positive price),
-  because `transact` updates the accumulators before the price check and the identity holds at any
-  `price`.  `qty ≠ 0` is genuinely needed: `transact` ignores a zero-quantity fill entirely, so its
-  commission would appear in the cash flows but not in the position.
+* Outside the domain (`C03_reconcile_strong`, only `qty ≠ 0` assumed; times and prices arbitrary, so
+  `transact` / `updatePrice` calls may return errors): `transact` validates the trade's price and time
+  *before* it touches the accumulators (fix F4), so a refused fill leaves the running quantities,
+  averages and commissions unchanged and changes at most the `clock`.  The identity then holds with the
+  cash-flow sums taken over the opening fill and the **accepted** later fills
+  (`Position.accepted (openFrom f) fs`: the fills whose `transact` call returned no error) — a refused
+  fill is not a cash flow of the position.  Inside the domain every fill is accepted
+  (`C03_accepted_all`), which gives `C03_reconcile` over all fills.  `qty ≠ 0` is genuinely needed:
+  `transact` ignores a zero-quantity fill entirely (and reports no error), so its commission would
+  appear in the cash flows but not in the position.
 -/
 
 set_option linter.unusedSectionVars false
@@ -105,26 +110,53 @@ theorem C03_no_error (f : Txn α) (fs : List (Txn α)) (ms : List (α × Int)) (
     · intro t ht
       exact hFM _ (List.mem_map_of_mem (List.mem_cons_of_mem _ ht)) _ hm'
 
+/-- Inside the domain every later fill is accepted: the list of accepted fills is the whole list. -/
+theorem C03_accepted_all (f : Txn α) (fs : List (Txn α)) (ms : List (α × Int)) (h : ValidRun f fs ms) :
+    accepted (openFrom f) fs = fs :=
+  accepted_eq_self (openFrom f) fs (C03_no_error f fs ms h).1
+
 /-- The reachability invariant (`Inv`, see `QsProofs/Lemmas/Position.lean`) of every reached position:
 `avgB·buyQ`, `comB`, `buyQ` (resp. sell side) are the sums over the buy (sell) fills, both
 quantities are non-negative, and an empty side carries no commission. -/
 theorem C03_invariant (f : Txn α) (fs : List (Txn α)) (ms : List (α × Int)) (h : ValidRun f fs ms) :
-    Inv (reached f fs ms) (f :: fs) :=
-  inv_reached f fs ms h.qty_ne
+    Inv (reached f fs ms) (f :: fs) := by
+  have := inv_reached f fs ms h.qty_ne
+  rwa [C03_accepted_all f fs ms h] at this
 
-/-- `C03_reconcile` under the only hypothesis its proof uses (`qty ≠ 0`); times and prices are
-arbitrary, so this also covers the `.1` results of calls that returned an error. -/
+/-- The invariant outside the domain (only `qty ≠ 0`; calls may be refused): the accumulators are the
+sums over the opening fill and the accepted later fills — a refused fill is not counted. -/
+theorem C03_invariant_strong (f : Txn α) (fs : List (Txn α)) (ms : List (α × Int))
+    (hq : ∀ t ∈ f :: fs, t.qty ≠ 0) :
+    Inv (reached f fs ms) (f :: accepted (openFrom f) fs) :=
+  inv_reached f fs ms hq
+
+/-- C03 (a refused fill is not a cash flow): a `transact` call that returns an error leaves both
+cumulative quantities, both averages and both commission totals — hence net quantity, realised P&L and
+average cost — exactly as they were; at most the `clock` moved. -/
+theorem C03_refused (P : Position α) (t : Txn α) (e : Err) (h : (P.transact t).2 = some e) :
+    ∃ c, (P.transact t).1 = { P with clock := c } :=
+  transact_refused P t e h
+
+/-- `C03_reconcile` under `qty ≠ 0` only; times and prices are arbitrary, so `transact` and
+`updatePrice` calls of the run may be refused.  The cash-flow sums run over the opening fill and the
+**accepted** later fills `accepted (openFrom f) fs` (a refused `transact` does not touch the
+accumulators, so its fill must not be counted). -/
 theorem C03_reconcile_strong (f : Txn α) (fs : List (Txn α)) (ms : List (α × Int))
     (hq : ∀ t ∈ f :: fs, t.qty ≠ 0) :
     (reached f fs ms).totalPnl =
       (reached f fs ms).price * (reached f fs ms).net
-        - ((f :: fs).map (fun t => t.price * (t.qty : α))).sum
-        - ((f :: fs).map (fun t => t.commission)).sum := by
+        - ((f :: accepted (openFrom f) fs).map (fun t => t.price * (t.qty : α))).sum
+        - ((f :: accepted (openFrom f) fs).map (fun t => t.commission)).sum := by
   have I := inv_reached f fs ms hq
+  have hq' : ∀ t ∈ f :: accepted (openFrom f) fs, t.qty ≠ 0 := by
+    intro t ht
+    rcases List.mem_cons.mp ht with rfl | ht
+    · exact hq _ (List.mem_cons_self ..)
+    · exact hq t (List.mem_cons_of_mem _ ((accepted_sublist _ _).subset ht))
   rw [totalPnl_eq _ I.buyQ_nonneg I.sellQ_nonneg I.buy_zero (fun h => (I.sell_zero h).1),
     I.buyCons, I.sellCons, I.buyCom, I.sellCom]
-  have h1 := consid_split (f :: fs) hq
-  have h2 := commis_split (f :: fs) hq
+  have h1 := consid_split (f :: accepted (openFrom f) fs) hq'
+  have h2 := commis_split (f :: accepted (openFrom f) fs) hq'
   unfold consid at h1
   unfold commis at h2
   rw [h1, h2]
@@ -137,13 +169,14 @@ theorem C03_reconcile (f : Txn α) (fs : List (Txn α)) (ms : List (α × Int)) 
     (reached f fs ms).totalPnl =
       (reached f fs ms).price * (reached f fs ms).net
         - ((f :: fs).map (fun t => t.price * (t.qty : α))).sum
-        - ((f :: fs).map (fun t => t.commission)).sum :=
-  C03_reconcile_strong f fs ms h.qty_ne
+        - ((f :: fs).map (fun t => t.commission)).sum := by
+  have := C03_reconcile_strong f fs ms h.qty_ne
+  rwa [C03_accepted_all f fs ms h] at this
 
 /-- the net quantity of a reached position is the sum of the signed fill quantities -/
 theorem C03_net (f : Txn α) (fs : List (Txn α)) (ms : List (α × Int)) (h : ValidRun f fs ms) :
     (reached f fs ms).net = ((f :: fs).map (fun t => (t.qty : α))).sum := by
-  have I := inv_reached f fs ms h.qty_ne
+  have I := C03_invariant f fs ms h
   have h3 := qtySum_split (f :: fs) h.qty_ne
   unfold qtySum at h3
   unfold Position.net
@@ -159,7 +192,7 @@ theorem C03_avgPrice_long (f : Txn α) (fs : List (Txn α)) (ms : List (α × In
       (((buys (f :: fs)).map (fun t => t.price * (t.qty : α))).sum
           + ((buys (f :: fs)).map (fun t => t.commission)).sum)
         / ((buys (f :: fs)).map (fun t => (t.qty : α))).sum := by
-  have I := inv_reached f fs ms h.qty_ne
+  have I := C03_invariant f fs ms h
   rw [avgPrice_long _ hlong, I.buyCons, I.buyCom]
   conv_lhs => rw [I.buyQty]
   rfl
@@ -172,7 +205,7 @@ theorem C03_avgPrice_short (f : Txn α) (fs : List (Txn α)) (ms : List (α × I
       (((sells (f :: fs)).map (fun t => t.price * |(t.qty : α)|)).sum
           - ((sells (f :: fs)).map (fun t => t.commission)).sum)
         / ((sells (f :: fs)).map (fun t => |(t.qty : α)|)).sum := by
-  have I := inv_reached f fs ms h.qty_ne
+  have I := C03_invariant f fs ms h
   rw [avgPrice_short _ hshort, I.sellCons, I.sellCom, sells_abs_consid, sells_abs_qty]
   conv_lhs => rw [I.sellQty]
   rfl
@@ -274,6 +307,38 @@ example := C03_avgPrice_short _ _ _ exValid (by
 example := C03_avgPrice_long _ _ _ exValid' (by
   norm_num [reached, applyFills, applyMarks, transact, updatePrice, transactBuy, transactSell, openFrom,
     net, exF0, exF1', exF2])
+
+/-! A run *outside* the domain: `exBad` (time 0 < clock 1) and `exBad'` (price 0) are refused by
+`transact`; they leave the accumulators untouched and are not among the accepted fills, so
+`C03_reconcile_strong` counts only `exF0` and `exF1`.  Counting the refused fills (as the sums over
+all of `fs` would) gives a different, wrong figure. -/
+
+def exBad : Txn ℚ := { asset := "A", qty := 500, time := 0, price := 7, commission := 3 }
+def exBad' : Txn ℚ := { asset := "A", qty := -40, time := 2, price := 0, commission := 5 }
+
+example : ((openFrom exF0).transact exBad).2 = some Err.value
+    ∧ ((openFrom exF0).transact exBad).1 = openFrom exF0 := by
+  norm_num [transact, updatePrice, openFrom, exF0, exBad]
+
+example : accepted (openFrom exF0) [exBad, exF1, exBad'] = [exF1] := by
+  norm_num [accepted, transact, updatePrice, transactBuy, transactSell, openFrom, exF0, exF1, exBad,
+    exBad']
+
+example : (reached exF0 [exBad, exF1, exBad'] []).totalPnl = 97
+    ∧ (reached exF0 [exBad, exF1, exBad'] []).price * (reached exF0 [exBad, exF1, exBad'] []).net
+        - (([exF0, exF1]).map (fun t => t.price * (t.qty : ℚ))).sum
+        - (([exF0, exF1]).map (fun t => t.commission)).sum = 97
+    ∧ (reached exF0 [exBad, exF1, exBad'] []).price * (reached exF0 [exBad, exF1, exBad'] []).net
+        - (([exF0, exBad, exF1, exBad']).map (fun t => t.price * (t.qty : ℚ))).sum
+        - (([exF0, exBad, exF1, exBad']).map (fun t => t.commission)).sum ≠ 97 := by
+  norm_num [reached, applyFills, applyMarks, transact, updatePrice, transactBuy, transactSell, openFrom,
+    totalPnl, realised, unrealised, avgPrice, net, exF0, exF1, exBad, exBad']
+
+example := C03_reconcile_strong exF0 [exBad, exF1, exBad'] [] (by simp [exF0, exF1, exBad, exBad'])
+example := C03_invariant_strong exF0 [exBad, exF1, exBad'] [] (by simp [exF0, exF1, exBad, exBad'])
+example := C03_refused (openFrom exF0) exBad Err.value (by
+  norm_num [transact, updatePrice, openFrom, exF0, exBad])
+example := C03_accepted_all _ _ _ exValid
 
 end Examples
 
